@@ -251,7 +251,7 @@ class System:
             ol = getattr(p, "_ol", p)
             for h in getattr(ol, "handlers", ()):
                 slot_of[id(h)] = s
-        hc = None if pairs is None else tuple(slot_of.get(id(acc), "?") for _, acc in pairs)
+        hc = None if pairs is None else "unknown" if pairs is I.UNKNOWN else tuple(slot_of.get(id(acc), "?") for _, acc in pairs)
         fns = []
         for name in ("f", "g", "h"):
             fn = w.ns[name]
